@@ -35,7 +35,7 @@ CHECKS.update({
   "DESIGN.md 4 C08"),
  "C10": ("model_checking", "approvex/cisco",
   "crash-point enumeration inside explicit-state exploration: every proper prefix of every script (cut also between the halves of a joined line and inside sub-mode blocks) yields a state that is fed back to the real planner; second script executed on the model, result compared semantically, third compare silent",
-  "For every pair of the reduced spaces and every cut position k the device model state after k commands is printed and given to the planner again; the resumed run must be accepted by the model and must converge. Exhaustive over pairs x cut positions inside the alphabets.",
+  "For every pair of the reduced spaces and every cut position k the device model state after k commands is printed and given to the planner again; the resumed run must be accepted by the model and must converge. Exhaustive over pairs x cut positions inside the alphabets. The last cut position on PAN-OS (all changes in the candidate configuration, cut at the commit) runs in the HTTPS simulator, which keeps candidate and running configuration apart.",
   "Crash model: commands before the cut have fully taken effect, the cut command and later ones not at all.",
   "DESIGN.md 4 C10"),
 })
@@ -66,8 +66,8 @@ CHECKS.update({
 
 CHECKS.update({
  "C20": ("exploration", "mutx",
-  "exhaustive enumeration of the statement's finite mutation family (every line x every operator x both argument positions, whole-file cases, info files), each mutant run through the real CompareFiles in-process with panic classification by call site and a per-case watchdog",
-  "The family the statement defines is finite and is enumerated completely (quick: truncation, token deletion, emptied line; thorough: all operators). Every mutant is executed; exit status, message and panic site are classified. This is exhaustive exploration of a stated finite input family, not sampling.",
+  "exhaustive enumeration of the statement's finite mutation family (every line x every operator x both argument positions, whole-file cases, info files), each mutant run through the real CompareFiles in-process with panic classification by call site and a per-case watchdog (mutants that may end in an unrecoverable fatal error run through the built drc binary); operators: token truncation / deletion / duplication / swap, second blank, last token repeated, indentation, emptied line, file truncation, JSON value replacement (NSX), XML element emptied / deleted / self-reference (PAN-OS), role changes of whole files",
+  "The family the statement defines is finite and is enumerated completely (quick: truncation, token deletion, emptied line, second blank, repeated last token, JSON null, XML operators, role changes; thorough: all operators). Every mutant is executed; exit status, message and panic site are classified. This is exhaustive exploration of a stated finite input family, not sampling.",
   "In-process recover() stands for the exit status 2 + trace of the binaries; do-approve/missing-approve status files are covered by C13's damage events.",
   "DESIGN.md 4 C20"),
 })
@@ -90,7 +90,7 @@ CHECKS.update({
 
 CHECKS.update({
  "C13": ("model_checking", "histx",
-  "explicit-state breadth-first search over event histories with canonical-state de-duplication; every transition runs the real status.SetApprove/SetCompare on a real directory tree and the real missing-approve binary; invariants must-list / must-omit from an independently tracked reference (latest conclusive observation) are evaluated in every reached state",
+  "explicit-state breadth-first search over event histories with canonical-state de-duplication; every transition runs the real status.SetApprove/SetCompare on a real directory tree and the real missing-approve binary; invariants must-list / must-omit from an independently tracked reference (latest conclusive observation) are evaluated in every reached state; end to end through the real do-approve for every device type, and with the repository's cron scripts (compress-policies, delete-old-policies) run on the tree before missing-approve",
   "All event sequences of the statement's alphabet up to depth 5 (thorough 7) are covered through BFS over canonical states; the reference automaton is 15 lines and tracks only the event list. Every transition is an implementation run, so there is no model/implementation gap.",
   "Status is written through the status package as do-approve does after a run; clock strictly increasing.",
   "DESIGN.md 4 C13 + appendix D"),
@@ -140,9 +140,9 @@ CHECKS.update({
 
 CHECKS.update({
  "C12": ("model_checking", "lockx",
-  "stateless exhaustive interleaving exploration of the real device.SetLock under a cooperative scheduler (scheduling points inserted before os.Mkdir, os.OpenFile, syscall.Flock by a build overlay), real file system and real flock; plus process-level enumeration of holder phases x contender variants x release/kill with the real binaries",
-  "All interleavings of 2 and 3 contenders (3400 schedules, 30k scheduled steps) are executed; the invariant 'exactly one holder per device, losers fail at once with the right message, nobody blocks' is checked on each. Process level: see rule text.",
-  "Atomicity of the three system calls themselves; Linux flock on a local file system.",
+  "stateless exhaustive interleaving exploration of the real device.SetLock under a cooperative scheduler (a scheduling point in front of every system call of SetLock, inserted by a build overlay; also inside its retry loop), real file system and real flock; the lock-file clean-up of bin/delete-old-policies is a further actor (its steps are chosen from the text of the script); plus process-level enumeration of holder phases x contender variants x release/kill with the real binaries",
+  "All interleavings of 2 and 3 contenders and of 2 contenders plus the housekeeping job (1.07 million executions, 17.8 million scheduled steps in the quick tier; thorough adds 3 contenders plus the job with at most 5 preemptions) are executed as a depth-first search that replays each execution from scratch; the invariant 'one holder per device, losers fail at once with the right message, nobody blocks, replay never diverges' is checked on each. Process level: see rule text.",
+  "Atomicity of the single system calls; Linux flock on a local file system.",
   "DESIGN.md 4 C12"),
 })
 
